@@ -786,8 +786,13 @@ class GradRuleset(GenericDerivativeRuleset):
     def _(self, o: Expr) -> Expr:
         """Differentiate a spatial_coordinate.
 
-        dx/dx = I.
+        dx/dx = I, except on immersed manifolds where grad is the
+        tangential gradient and dx/dx = J K.
         """
+        domain = extract_unique_domain(o)
+        if domain.topological_dimension < domain.geometric_dimension:
+            K = JacobianInverse(domain)
+            return grad_to_reference_grad(o, K)
         return self._Id
 
     @process.register(CellCoordinate)
